@@ -108,10 +108,12 @@ type sysPlan struct {
 	Procs    []procSpec `json:"procs"` // behaviours for other command classes, consumed round-robin per class
 	NumCPU   int        `json:"num_cpu"`
 	DsrMs    int        `json:"dsr_ms"`
-	Multi    int        `json:"multi"` // 0 none, -1 unlimited, n limit
-	Header   int        `json:"header_lines"`
-	Tail     int        `json:"tail"`
-	Read0    bool       `json:"read0"`
+	// ClockGrain > 1: fzf's clock is coarse - readings taken within one grain are equal
+	ClockGrain int  `json:"clock_grain,omitempty"`
+	Multi      int  `json:"multi"` // 0 none, -1 unlimited, n limit
+	Header     int  `json:"header_lines"`
+	Tail       int  `json:"tail"`
+	Read0      bool `json:"read0"`
 	// Stages: the producer on stdin writes this many records, then pauses until the next "feed" event
 	// (one entry per pause; what is left after the last pause comes with the last feed)
 	Stages []int `json:"stages,omitempty"`
@@ -359,7 +361,12 @@ func (r *sysRun) start() bool {
 	plan.Cols = clampInt(plan.Cols, 1, 300)
 	plan.Rows = clampInt(plan.Rows, 1, 100)
 	plan.Lines.N = clampInt(plan.Lines.N, 0, 20000)
-	r.sim = zsim.New(c.simConfig())
+	cfg := c.simConfig()
+	if plan.ClockGrain > 1 {
+		cfg.ClockGrain = clampInt(plan.ClockGrain, 2, 1<<30)
+		c.count("fault.clock_coarse", 1)
+	}
+	r.sim = zsim.New(cfg)
 	c.sim = r.sim
 	// per-run TMPDIR: the temp-file audit must only see this run's files
 	r.oldTmp = os.Getenv("TMPDIR")
@@ -835,6 +842,9 @@ func (r *sysRun) finish() {
 	c := r.c
 	if n := r.os.PipeFull; n > 0 {
 		c.count("probe.pipe_full_writer_blocked", n)
+	}
+	if n := r.sim.CoarseReadings(); n > 0 {
+		c.count("probe.clock_reading_equal_to_previous", n)
 	}
 	if r.sigQuiet {
 		// a command started right after the signal was sent (a key already on its way) may have begun before
